@@ -39,7 +39,7 @@ func c14(c *core.Check) {
 	c14Bookmarks(c)
 	c14Radial(c)
 	c14Dashes(c)
-	r6 := c.Rule("R6", "no call passes two same-typed arguments under each other's parameter names (swapped arguments): every pair of arguments named after the callee's parameters is aligned with them", 50)
+	r6 := c.Rule("R6", "no call passes two same-typed arguments under each other's parameter names (swapped arguments): every pair of arguments named after the callee's parameters is aligned with them", 85)
 	argNameRule(c, r6, "html/document", map[string]bool{"document.go": true, "draw.go": true}, 45)
 	argNameRule(c, r6, "images", nil, 20)
 	argNameRule(c, r6, "text/draw", nil, 15)
@@ -640,7 +640,7 @@ var c14PathNotes = map[string]string{
 
 func c14Paths(c *core.Check) {
 	p := c.Prog
-	r := c.Rule("R1", "typestate of the current path: every Paint and Clip call of the drawing code is reached only in the state NonEmpty (a MoveTo/LineTo/CubicTo/Rectangle since the last Paint/Clip on every path, through calls and OnNewStack closures; range loops proven non-empty run once; functions switching on a side constant are analysed per side passed by their callers); a site reached with a possibly empty path is a finding unless it is a named, reasoned site", 20)
+	r := c.Rule("R1", "typestate of the current path: every Paint and Clip call of the drawing code is reached only in the state NonEmpty (a MoveTo/LineTo/CubicTo/Rectangle since the last Paint/Clip on every path, through calls and OnNewStack closures; range loops proven non-empty run once; functions switching on a side constant are analysed per side passed by their callers); a site reached with a possibly empty path is a finding unless it is a named, reasoned site", 23)
 	a := core.NewPathAnalysis(p)
 	seen := map[string]int{}
 	n := 0
@@ -725,7 +725,7 @@ var c14CountNotes = map[string]string{
 // c14Bookmarks: the outline is one tree over the whole document, not one per page.
 func c14Bookmarks(c *core.Check) {
 	p := c.Prog
-	r := c.Rule("R8", "the bookmark outline is built across pages: in makeBookmarkTree every variable carried by the loop over a page's bookmarks (the last node per depth, the previous level, the skipped levels) enters that loop with the value the loop over the pages carries — it is not re-initialised per page, which would attach the first bookmark of every page to the root whatever its level", 2)
+	r := c.Rule("R8", "the bookmark outline is built across pages: in makeBookmarkTree every variable carried by the loop over a page's bookmarks (the last node per depth, the previous level, the skipped levels) enters that loop with the value the loop over the pages carries — it is not re-initialised per page, which would attach the first bookmark of every page to the root whatever its level", 3)
 	fn := p.Method("html/document", "Document", "makeBookmarkTree")
 	if fn == nil {
 		r.Anchor("html/document.Document.makeBookmarkTree")
